@@ -90,7 +90,7 @@ func init() {
 			ID: "C17", Title: "Chunks secured with an expired token are rejected",
 			Quick:    Tier{Groups: G("uasc", "^VerifH_C17_"), Budget: 150 * time.Second, Solver: "cvc5"},
 			Thorough: Tier{Groups: G("uasc", "^VerifH_C17_"), Budget: 10 * time.Minute, Solver: "cvc5"},
-			Reach:    []string{"VerifH_C17_Expiry:expired"},
+			Reach:    []string{"VerifH_C17_Expiry:expired", "VerifH_C17_Expiry:middle"},
 			Bounds: []string{"one channel with two tokens; channel id, both token ids (distinct) and the token lifetime symbolic; modes Sign and SignAndEncrypt (Basic256Sha256)",
 				"one expiry step of the real scheduleExpiration (timer fires), real Receive/verifyAndDecrypt before and after; chunks produced by the real send path under the old and the new token"},
 			Outside: []string{"more than two tokens; the time at which the timer fires (C16); other policies (the token bookkeeping does not depend on the policy)"},
@@ -111,11 +111,12 @@ func init() {
 		},
 		&Spec{
 			ID: "C06", Title: "Negotiated transport limits are honoured in both directions",
-			Quick:    Tier{Groups: []Group{{"uacp", "^VerifH_C06_"}, {"uasc", "^VerifH_C06_"}}, Budget: 200 * time.Second, Solver: "cvc5"},
-			Thorough: Tier{Groups: []Group{{"uacp", "^VerifH_C06_"}, {"uasc", "^VerifH_C06_"}}, Budget: 20 * time.Minute, Solver: "cvc5", Seg: true, SegCuts: 1},
-			Reach:    []string{"VerifH_C06_Negotiation:negotiated", "VerifH_C06_ConnLimits:sent", "VerifH_C06_ReceiveLimits:accepted", "VerifH_C06_ReceiveLimits:refused", "VerifH_C06_SendLimits:sent"},
+			Quick:    Tier{Groups: []Group{{"uacp", "^VerifH_C06_"}, {"uasc", "^VerifH_C06_"}}, Budget: 200 * time.Second, Solver: "cvc5", MaxSymLen: 4},
+			Thorough: Tier{Groups: []Group{{"uacp", "^VerifH_C06_"}, {"uasc", "^VerifH_C06_"}}, Budget: 20 * time.Minute, Solver: "cvc5", Seg: true, SegCuts: 1, MaxSymLen: 8},
+			Reach:    []string{"VerifH_C06_Negotiation:negotiated", "VerifH_C06_ConnLimits:sent", "VerifH_C06_ReceiveLimits:accepted", "VerifH_C06_ReceiveLimits:refused", "VerifH_C06_SendLimits:sent", "VerifH_C06_ChunkSizeAfterOpen:server", "VerifH_C06_ChunkSizeAfterOpen:client"},
 			Bounds: []string{"Negotiation: the real client Handshake and server srvhandshake run against each other over a pipe; all eight configured limits symbolic, buffers in [8192, 2^20], message limits any uint32 incl. 0",
-				"ReceiveLimits / SendLimits: policy None, messages of 1..3 chunks at chunk size 8192, MaxChunkCount and MaxMessageSize any uint32 incl. 0"},
+				"ReceiveLimits / SendLimits: policy None, messages of 1..3 chunks at chunk size 8192, MaxChunkCount and MaxMessageSize any uint32 incl. 0",
+				"ChunkSizeAfterOpen: receive and send buffer symbolic in [8192, 2^20] (asymmetric allowed); server side runs the real Receive/handleOpenSecureChannelRequest on an OpenSecureChannel request and then sends a response of symbolic length (<= 3 MiB, <= 4 chunks explored); client side runs the real handleOpenSecureChannelResponse and sends; every chunk written must fit the send buffer"},
 			Outside: []string{"buffer sizes below the protocol minimum 8192", "server-side send limits towards the client (the Hello's message limits are not retained by the server connection)", "messages of more than 3 chunks"},
 			Stubs:   []string{"TCP: in-memory pipe between two modelled connections, the server handshake runs as a goroutine (run-to-block scheduling)"},
 		},
